@@ -57,6 +57,17 @@ CHECKS["C08"] = dict(
     note="Trusted: WBTreeMap / WBTreeSet as ordered finite maps with (left, right) callbacks (C14 is not decided by this family). Outside the claim: "
          "clone independence / structure sharing, and invariant breaking through get_mut (documented in the source). Universe: 3 keys for arity <= 2 (quick) / <= 3 (thorough), 2 keys above; quick stops at arity 5.")
 
+CHECKS["C05"] = dict(
+    technique="bounded verification by SAT of the generated API functions (symbolic state and arguments) + interpretation of the real unification.rs; Kani (CBMC) on unification.rs in the thorough tier",
+    text="For every public mutator and query of every corpus program, from every state satisfying the between-closes invariant and with "
+         "symbolic arguments, the solver shows the functional contract of the property: immediate visibility of insert_ through point query and "
+         "iterator (once) when nothing was equated since the last close, define_ = existing value or exactly one fresh element, new_ = fresh id, "
+         "equate_ = exactly the generated equivalence (and no other mutator changes equality), root_ idempotent / inside the class / identity on "
+         "unallocated ids. The union-find itself (root, root_const, union_roots_into of the real unification.rs) is decided from an arbitrary forest, "
+         "and again by Kani (4 elements, 3 symbolic unions) in the thorough tier. Violations are reported with a close-free public history replayed "
+         "natively against a reference model of the property.",
+    design_ref="§4 C05, §9")
+
 NOT_APPLICABLE = {
     "C02": "check not built yet (ghost-model soundness lemma planned, DESIGN.md §9)",
     "C03": "check not built yet (follows from C01 + C02 lemmas; idempotence lemma planned)",
